@@ -621,6 +621,19 @@ package tsm1
 //@   loop 1 invariant none_tombstoned_so_far: 1 <= i && (!dedup ==> all(j, 0, i, j < len(k.blocks) ==> len(k.blocks[j].tombstones) == 0))
 //@   call tsmKeyIterator.combineBoolean#1 requires tombstoned_blocks_take_the_decode_path: dedup || all(j, 0, len(k.blocks), len(k.blocks[j].tombstones) == 0)
 
+// ---- C09: compaction never reorders blocks of a key that overlap in time ----
+// merge<T> sorts a key's blocks with sort.Stable(blocks) and then deduplicates in that order, later entries
+// winning. The blocks arrive in file order (oldest generation first), so the order must only ever move a block
+// in front of another one when it lies ENTIRELY before it; two blocks that overlap in time compare as equal in
+// both directions and the stable sort keeps the older file first - otherwise an overwritten value comes back.
+//@ func (blocks).Less
+//@   props C09 C02
+//@   nosafety
+//@   ghost same_key bool = false
+//@   at after bytes.Compare#1: ghost same_key = callresult0 == 0
+//@   ensures only_a_block_entirely_before_is_less: same_key && result ==> a[i].maxTime < a[j].minTime
+//@   ensures blocks_entirely_before_are_less: same_key && a[i].minTime <= a[i].maxTime && a[i].maxTime < a[j].minTime ==> result
+
 // ---- C18: a restore / import succeeds only if the whole archive arrived ----
 // overlay's copy loop may stop successfully at one condition only: the tar reader reported a clean end of archive
 // (io.EOF). Every other error - a stream cut inside a member or a header (io.ErrUnexpectedEOF), a file error -
